@@ -1132,4 +1132,450 @@ theorem u2_step (f : SEnt → NameV) {ents ents' : List SEnt} {i u : Nat} {pre p
         · simp [writeU2, aget_aset, hk]
         · simp [writeU2]
 
+/-! ### `entry_index` keeps every table exact -/
+
+/-- all four name tables are exact -/
+structure NInv (ents : List SEnt) (t : Tables) : Prop where
+  n2u : KVInv kvN2U ents t.n2u
+  e2u : KVInv kvE2U ents t.e2u
+  u2s : KVInv kvU2S ents t.u2s
+  u2r : KVInv kvU2R ents t.u2r
+
+/-- what the layers above the backend guarantee about the entries that are neither recycled nor
+tombstones: distinct uuids, pairwise disjoint name candidates, distinct external ids -/
+structure NUniq (ents : List SEnt) : Prop where
+  uuids : ∀ e1 ∈ ents, ∀ e2 ∈ ents, masked e1 = false → masked e2 = false → e1.uuid = e2.uuid → e1.id = e2.id
+  names : ∀ e1 ∈ ents, ∀ e2 ∈ ents, masked e1 = false → masked e2 = false →
+    ∀ n, n ∈ cands e1 → n ∈ cands e2 → e1.id = e2.id ∧ e1.uuid = e2.uuid
+  ext : ∀ e1 ∈ ents, ∀ e2 ∈ ents, masked e1 = false → masked e2 = false →
+    ∀ n, extId e1 = some n → extId e2 = some n → e1.id = e2.id ∧ e1.uuid = e2.uuid
+  same : ∀ e1 ∈ ents, ∀ e2 ∈ ents, e1.id = e2.id → e1 = e2
+
+theorem NUniq.subset {es es' : List SEnt} (h : ∀ e ∈ es', e ∈ es) (hu : NUniq es) : NUniq es' :=
+  ⟨fun e1 h1 e2 h2 => hu.uuids e1 (h e1 h1) e2 (h e2 h2),
+   fun e1 h1 e2 h2 => hu.names e1 (h e1 h1) e2 (h e2 h2),
+   fun e1 h1 e2 h2 => hu.ext e1 (h e1 h1) e2 (h e2 h2),
+   fun e1 h1 e2 h2 => hu.same e1 (h e1 h1) e2 (h e2 h2)⟩
+
+theorem NUniq.kvN2U {ents : List SEnt} (hu : NUniq ents) : KVUniq kvN2U ents := by
+  intro e1 h1 e2 h2 m1 m2 k v1 v2 hv1 hv2
+  simp only [Index.kvN2U, List.mem_map, Prod.mk.injEq] at hv1 hv2
+  obtain ⟨n1, hn1, hk1, hv1⟩ := hv1
+  obtain ⟨n2, hn2, hk2, hv2⟩ := hv2
+  subst hk1 hv1 hv2 hk2
+  exact hu.names e1 h1 e2 h2 m1 m2 n2 hn1 hn2
+
+theorem NUniq.kvE2U {ents : List SEnt} (hu : NUniq ents) : KVUniq kvE2U ents := by
+  intro e1 h1 e2 h2 m1 m2 k v1 v2 hv1 hv2
+  simp only [Index.kvE2U, List.mem_map, Option.mem_toList, Prod.mk.injEq] at hv1 hv2
+  obtain ⟨n1, hn1, hk1, hv1⟩ := hv1
+  obtain ⟨n2, hn2, hk2, hv2⟩ := hv2
+  subst hk1 hv1 hv2 hk2
+  exact hu.ext e1 h1 e2 h2 m1 m2 n2 hn1 hn2
+
+theorem NUniq.kvU2 {ents : List SEnt} (hu : NUniq ents) (f : SEnt → NameV) :
+    KVUniq (fun e => [(e.uuid, f e)]) ents := by
+  intro e1 h1 e2 h2 m1 m2 k v1 v2 hv1 hv2
+  simp only [List.mem_singleton, Prod.mk.injEq] at hv1 hv2
+  obtain ⟨rfl, rfl⟩ := hv1
+  obtain ⟨hk, rfl⟩ := hv2
+  have hid := hu.uuids e1 h1 e2 h2 m1 m2 hk
+  have := hu.same e1 h1 e2 h2 hid
+  exact ⟨hid, by rw [this]⟩
+
+theorem nameIndex_inv {ents ents' : List SEnt} {i u : Nat} {pre post : Option SEnt}
+    (cx : StepCtx ents ents' i u pre post) (t : Tables) (hinv : NInv ents t)
+    (hu : NUniq ents) (hu' : NUniq ents') :
+    NInv ents' (nameIndex (pre.bind mask) (post.bind mask) u t) :=
+  ⟨n2u_step cx t hinv.n2u hu.kvN2U hu'.kvN2U,
+   e2u_step cx t hinv.e2u hu.kvE2U hu'.kvE2U,
+   u2_step spnOf cx t.u2s hinv.u2s (hu.kvU2 spnOf) (hu'.kvU2 spnOf),
+   u2_step rdnOf cx t.u2r hinv.u2r (hu.kvU2 rdnOf) (hu'.kvU2 rdnOf)⟩
+
+theorem applyAct_names (id : Nat) (t : Tables) (act : Act) :
+    (applyAct id t act).n2u = t.n2u ∧ (applyAct id t act).e2u = t.e2u ∧
+    (applyAct id t act).u2s = t.u2s ∧ (applyAct id t act).u2r = t.u2r := by
+  unfold applyAct
+  split
+  · unfold writeIdl
+    split <;> simp
+  · simp
+
+theorem applyActs_names (id : Nat) (acts : List Act) (t : Tables) :
+    (applyActs id acts t).n2u = t.n2u ∧ (applyActs id acts t).e2u = t.e2u ∧
+    (applyActs id acts t).u2s = t.u2s ∧ (applyActs id acts t).u2r = t.u2r := by
+  induction acts generalizing t with
+  | nil => simp [applyActs]
+  | cons x xs ih =>
+    rw [applyActs_cons]
+    obtain ⟨h1, h2, h3, h4⟩ := ih (applyAct id t x)
+    obtain ⟨g1, g2, g3, g4⟩ := applyAct_names id t x
+    exact ⟨h1.trans g1, h2.trans g2, h3.trans g3, h4.trans g4⟩
+
+theorem NInv.congr {ents : List SEnt} {t t' : Tables} (h : NInv ents t)
+    (h1 : t'.n2u = t.n2u) (h2 : t'.e2u = t.e2u) (h3 : t'.u2s = t.u2s) (h4 : t'.u2r = t.u2r) : NInv ents t' :=
+  ⟨h1 ▸ h.n2u, h2 ▸ h.e2u, h3 ▸ h.u2s, h4 ▸ h.u2r⟩
+
+/-- the table part of the invariant: every existing index table that is not stale is configured
+and exact; the four name tables are exact -/
+structure TInv (stale : Nat → IType → Prop) (idxmeta : List (Nat × IType)) (ents : List SEnt) (t : Tables) :
+    Prop where
+  idx : ∀ a it, tblExists t a it → ¬ stale a it → (a, it) ∈ idxmeta ∧ Mirror ents t a it
+  names : NInv ents t
+
+theorem nameIndex_idx (mp mq : Option SEnt) (u : Nat) (t : Tables) : (nameIndex mp mq u t).idx = t.idx := rfl
+
+theorem retract_eq (p : SEnt) (t : Tables) : retract p t = nameIndex (some p) none p.uuid t := by
+  simp [retract, nameIndex, writeN2uAdd, optList, n2uDiff, e2uDiff]
+
+theorem mask_some_of_unmasked {p : SEnt} (h : masked p = false) : (some p).bind mask = some p := by
+  simp [mask, h]
+
+/-- `entry_index` for a change of one entry keeps every table exact -/
+theorem entryIndex_inv {ents ents' : List SEnt} {i : Nat} {pre post : Option SEnt}
+    (hc : Change ents ents' i pre post) {stale : Nat → IType → Prop} {idxmeta : List (Nat × IType)}
+    {t t' : Tables} (hinv : TInv stale idxmeta ents t) (hu : NUniq ents) (hu' : NUniq ents')
+    (hkp : ∀ e, pre = some e → KeysNodup e) (hkq : ∀ e, post = some e → KeysNodup e)
+    (hrun : entryIndex idxmeta pre post t = some t') : TInv stale idxmeta ents' t' := by
+  -- the ids
+  have hpid : ∀ p, pre = some p → p.id = i := fun p h => ((hc.hpre p).2 h).2
+  have hqid : ∀ q, post = some q → q.id = i := fun q h => ((hc.hpost q).2 h).2
+  -- the index tables, given the intermediate table state `t1` (same index tables as `t`)
+  have hidx : ∀ t1 : Tables, t1.idx = t.idx →
+      ∀ a it, tblExists (applyActs i (idxDiff idxmeta pre post) t1) a it → ¬ stale a it →
+        (a, it) ∈ idxmeta ∧ Mirror ents' (applyActs i (idxDiff idxmeta pre post) t1) a it := by
+    intro t1 h1 a it hex hst
+    have hex1 : tblExists t1 a it := (applyActs_exists _ _ _ _ _).1 hex
+    have hex0 : tblExists t a it := (tblExists_congr h1 a it).1 hex1
+    obtain ⟨hm, hmir⟩ := hinv.idx a it hex0 hst
+    have hmir1 : Mirror ents t1 a it := fun k id => (memIdl_congr h1 a it k id).trans (hmir k id)
+    exact ⟨hm, mirror_step hc idxmeta t1 a it hkp hkq hm hex1 hmir1⟩
+  unfold entryIndex at hrun
+  cases hh : indexHeader pre post with
+  | none => rw [hh] at hrun; exact absurd hrun (by simp)
+  | some hdr =>
+    obtain ⟨u, id, same⟩ := hdr
+    rw [hh] at hrun
+    simp only at hrun
+    -- the header
+    have hid : id = i ∧ (∀ q, post = some q → q.uuid = u) ∧ (post = none → ∀ p, pre = some p → p.uuid = u) ∧
+        (same = true → ∀ p, pre = some p → p.uuid = u) ∧
+        (same = false → ∃ p q, pre = some p ∧ post = some q ∧ p.uuid ≠ q.uuid) := by
+      cases pre with
+      | none =>
+        cases post with
+        | none => simp [indexHeader] at hh
+        | some q =>
+          simp only [indexHeader, Option.some.injEq, Prod.mk.injEq] at hh
+          obtain ⟨rfl, rfl, rfl⟩ := hh
+          exact ⟨hqid q rfl, by simp, by simp, by simp, by simp⟩
+      | some p =>
+        cases post with
+        | none =>
+          simp only [indexHeader, Option.some.injEq, Prod.mk.injEq] at hh
+          obtain ⟨rfl, rfl, rfl⟩ := hh
+          exact ⟨hpid p rfl, by simp, by simp, by simp, by simp⟩
+        | some q =>
+          simp only [indexHeader] at hh
+          split at hh
+          · simp only [Option.some.injEq, Prod.mk.injEq] at hh
+            obtain ⟨rfl, rfl, rfl⟩ := hh
+            refine ⟨hqid q rfl, by simp, by simp, ?_, ?_⟩
+            · intro hs p' hp'
+              simp only [Option.some.injEq] at hp'
+              subst hp'
+              simpa using hs
+            · intro hs
+              exact ⟨p, q, rfl, rfl, by simpa using hs⟩
+          · exact absurd hh (by simp)
+    obtain ⟨rfl, hqu, hpu0, hsame, hdiff⟩ := hid
+    cases hs : same with
+    | true =>
+      rw [hs] at hrun
+      simp only [if_true, Option.some.injEq] at hrun
+      subst hrun
+      have cx : StepCtx ents ents' id u pre post := ⟨hc, hsame hs, hqu⟩
+      have hn := nameIndex_inv cx t hinv.names hu hu'
+      obtain ⟨g1, g2, g3, g4⟩ := applyActs_names id (idxDiff idxmeta pre post) (nameIndex (pre.bind mask) (post.bind mask) u t)
+      exact ⟨hidx _ (nameIndex_idx _ _ _ _), hn.congr g1 g2 g3 g4⟩
+    | false =>
+      rw [hs] at hrun
+      obtain ⟨p, q, rfl, rfl, hne⟩ := hdiff hs
+      simp only [Bool.false_eq_true, if_false] at hrun
+      cases hmp : (some p).bind mask with
+      | none => rw [hmp] at hrun; exact absurd hrun (by simp)
+      | some p' =>
+        rw [hmp] at hrun
+        simp only [Option.some.injEq] at hrun
+        subst hrun
+        have hp' := bind_mask_eq_some.1 hmp
+        simp only [Option.some.injEq] at hp'
+        obtain ⟨rfl, hpm⟩ := hp'
+        -- first the old entry is retracted: an intermediate entry list without it
+        let mid := ents.filter (fun e => !decide (e.id = id))
+        have hc1 : Change ents mid id (some p) none := by
+          refine ⟨hc.hpre, ?_, ?_⟩
+          · intro e; simp [mid]
+          · intro e he; simp [mid, he]
+        have hc2 : Change mid ents' id none (some q) := by
+          refine ⟨?_, hc.hpost, ?_⟩
+          · intro e; simp [mid]
+          · intro e he
+            simp only [mid, List.mem_filter, he, decide_false, Bool.not_false, and_true]
+            exact hc.hother e he
+        have humid : NUniq mid := hu.subset (fun e he => (List.mem_filter.1 he).1)
+        have cx1 : StepCtx ents mid id p.uuid (some p) none := ⟨hc1, by simp, by simp⟩
+        have cx2 : StepCtx mid ents' id u none (some q) := ⟨hc2, by simp, hqu⟩
+        have hn1 := nameIndex_inv cx1 t hinv.names hu humid
+        rw [mask_some_of_unmasked hpm] at hn1
+        have hn2 := nameIndex_inv cx2 (nameIndex (some p) none p.uuid t) hn1 humid hu'
+        simp only [Option.bind_none] at hn1 hn2
+        rw [retract_eq]
+        obtain ⟨g1, g2, g3, g4⟩ := applyActs_names id (idxDiff idxmeta (some p) (some q))
+          (nameIndex none ((some q).bind mask) u (nameIndex (some p) none p.uuid t))
+        exact ⟨hidx _ rfl, hn2.congr g1 g2 g3 g4⟩
+
+/-! ### lists of entries -/
+
+theorem KVInv.congr_ents {κ ν : Type} [DecidableEq κ] {kv : SEnt → List (κ × ν)} {ents ents' : List SEnt}
+    {m : List (κ × ν)} (h : ∀ e, e ∈ ents ↔ e ∈ ents') (hi : KVInv kv ents m) : KVInv kv ents' m := by
+  intro k v
+  rw [hi k v]
+  constructor
+  · rintro ⟨e, he, r⟩; exact ⟨e, (h e).1 he, r⟩
+  · rintro ⟨e, he, r⟩; exact ⟨e, (h e).2 he, r⟩
+
+theorem TInv.congr_ents {stale : Nat → IType → Prop} {idxmeta : List (Nat × IType)} {ents ents' : List SEnt}
+    {t : Tables} (h : ∀ e, e ∈ ents ↔ e ∈ ents') (hi : TInv stale idxmeta ents t) :
+    TInv stale idxmeta ents' t := by
+  refine ⟨?_, ⟨hi.names.n2u.congr_ents h, hi.names.e2u.congr_ents h, hi.names.u2s.congr_ents h,
+    hi.names.u2r.congr_ents h⟩⟩
+  intro a it hex hst
+  obtain ⟨hm, hmir⟩ := hi.idx a it hex hst
+  refine ⟨hm, fun k id => (hmir k id).trans ?_⟩
+  constructor
+  · rintro ⟨e, he, r⟩; exact ⟨e, (h e).1 he, r⟩
+  · rintro ⟨e, he, r⟩; exact ⟨e, (h e).2 he, r⟩
+
+theorem change_add {ents : List SEnt} {e : SEnt} (hfresh : ∀ x ∈ ents, x.id ≠ e.id) :
+    Change ents (ents ++ [e]) e.id none (some e) := by
+  refine ⟨?_, ?_, ?_⟩
+  · intro x
+    simp only [reduceCtorEq, iff_false, not_and]
+    exact fun hx => hfresh x hx
+  · intro x
+    simp only [List.mem_append, List.mem_singleton, Option.some.injEq]
+    constructor
+    · rintro ⟨hx | hx, hid⟩
+      · exact absurd hid (hfresh x hx)
+      · exact hx.symm
+    · rintro rfl; exact ⟨Or.inr rfl, rfl⟩
+  · intro x hx
+    simp only [List.mem_append, List.mem_singleton]
+    constructor
+    · intro h; exact Or.inl h
+    · rintro (h | rfl)
+      · exact h
+      · exact absurd rfl hx
+
+theorem same_of_nodup_ids : ∀ {ents : List SEnt}, (ents.map (·.id)).Nodup →
+    ∀ e1 ∈ ents, ∀ e2 ∈ ents, e1.id = e2.id → e1 = e2
+  | [], _, e1, h1, _, _, _ => by simp at h1
+  | x :: xs, h, e1, h1, e2, h2, hid => by
+    simp only [List.map_cons, List.nodup_cons, List.mem_map, not_exists, not_and] at h
+    rcases List.mem_cons.1 h1 with rfl | h1'
+    · rcases List.mem_cons.1 h2 with rfl | h2'
+      · rfl
+      · exact absurd hid.symm (h.1 e2 h2')
+    · rcases List.mem_cons.1 h2 with rfl | h2'
+      · exact absurd hid (h.1 e1 h1')
+      · exact same_of_nodup_ids h.2 e1 h1' e2 h2' hid
+
+/-- `for e in c_entries { entry_index(None, Some(e)) }` keeps the tables exact for the growing entry list -/
+theorem indexAll_inv {stale : Nat → IType → Prop} {idxmeta : List (Nat × IType)} :
+    ∀ (c ents : List SEnt) (t t' : Tables), TInv stale idxmeta ents t → NUniq (ents ++ c) →
+      ((ents ++ c).map (·.id)).Nodup →
+      (∀ e ∈ c, KeysNodup e) → indexAll idxmeta c t = some t' → TInv stale idxmeta (ents ++ c) t'
+  | [], ents, t, t', hinv, _, _, _, hrun => by
+    simp only [indexAll, Option.some.injEq] at hrun
+    subst hrun
+    simpa using hinv
+  | e :: es, ents, t, t', hinv, hu, hids, hk, hrun => by
+    simp only [indexAll] at hrun
+    cases h1 : entryIndex idxmeta none (some e) t with
+    | none => rw [h1] at hrun; exact absurd hrun (by simp)
+    | some t1 =>
+      rw [h1] at hrun
+      simp only at hrun
+      have hfresh : ∀ x ∈ ents, x.id ≠ e.id := by
+        intro x hx hid
+        simp only [List.map_append, List.map_cons] at hids
+        have hd := (List.nodup_append.1 hids).2.2
+        exact hd x.id (List.mem_map.2 ⟨x, hx, rfl⟩) e.id (by simp) hid
+      have hsub : ∀ x ∈ ents ++ [e], x ∈ ents ++ e :: es := by
+        intro x hx
+        simp only [List.mem_append, List.mem_singleton, List.mem_cons] at hx ⊢
+        rcases hx with h | h
+        · exact Or.inl h
+        · exact Or.inr (Or.inl (by simpa using h))
+      have hu0 : NUniq ents := hu.subset (fun x hx => by simp [hx])
+      have hu1 : NUniq (ents ++ [e]) := hu.subset hsub
+      have hinv1 : TInv stale idxmeta (ents ++ [e]) t1 :=
+        entryIndex_inv (change_add hfresh) hinv hu0 hu1 (by simp)
+          (by intro x hx; simp only [Option.some.injEq] at hx; subst hx; exact hk e (by simp)) h1
+      have := indexAll_inv es (ents ++ [e]) t1 t' hinv1 (by simpa using hu) (by simpa using hids)
+        (fun x hx => hk x (by simp [hx])) hrun
+      simpa using this
+
+theorem indexAll_isSome (idxmeta : List (Nat × IType)) : ∀ (c : List SEnt) (t : Tables),
+    (indexAll idxmeta c t).isSome = true
+  | [], t => by simp [indexAll]
+  | e :: es, t => by
+    simp only [indexAll, entryIndex, indexHeader, if_true]
+    exact indexAll_isSome idxmeta es _
+
+/-- `write_identries` of one entry that replaces a stored one -/
+theorem mem_putEnt_replace {ents : List SEnt} {pre post : SEnt} (hpre : pre ∈ ents) (hid : post.id = pre.id)
+    (x : SEnt) : x ∈ putEnt ents post ↔ (x = post ∨ (x ∈ ents ∧ x.id ≠ pre.id)) := by
+  have hany : ents.any (fun y => decide (y.id = post.id)) = true := by
+    simp only [List.any_eq_true, decide_eq_true_eq]
+    exact ⟨pre, hpre, hid.symm⟩
+  simp only [putEnt, hany, if_true, List.mem_map]
+  constructor
+  · rintro ⟨y, hy, rfl⟩
+    by_cases h : y.id = post.id
+    · simp [h]
+    · simp only [h, if_false]
+      exact Or.inr ⟨hy, fun e => h (e.trans hid.symm)⟩
+  · rintro (rfl | ⟨hx, hne⟩)
+    · exact ⟨pre, hpre, by simp [hid]⟩
+    · have : ¬ x.id = post.id := fun e => hne (e.trans hid)
+      exact ⟨x, hx, by simp [this]⟩
+
+theorem putEnt_ids {ents : List SEnt} {pre post : SEnt} (hpre : pre ∈ ents) (hid : post.id = pre.id) :
+    (putEnt ents post).map (·.id) = ents.map (·.id) := by
+  have hany : ents.any (fun y => decide (y.id = post.id)) = true := by
+    simp only [List.any_eq_true, decide_eq_true_eq]
+    exact ⟨pre, hpre, hid.symm⟩
+  simp only [putEnt, hany, if_true, List.map_map]
+  apply List.map_congr_left
+  intro y _
+  by_cases h : y.id = post.id
+  · simp [h]
+  · simp [h]
+
+theorem change_replace {ents : List SEnt} {pre post : SEnt} (hids : (ents.map (·.id)).Nodup)
+    (hpre : pre ∈ ents) (hid : post.id = pre.id) :
+    Change ents (putEnt ents post) pre.id (some pre) (some post) := by
+  refine ⟨?_, ?_, ?_⟩
+  · intro x
+    simp only [Option.some.injEq]
+    constructor
+    · rintro ⟨hx, hxi⟩; exact (same_of_nodup_ids hids x hx pre hpre hxi).symm
+    · rintro rfl; exact ⟨hpre, rfl⟩
+  · intro x
+    rw [mem_putEnt_replace hpre hid]
+    simp only [Option.some.injEq]
+    constructor
+    · rintro ⟨rfl | ⟨_, hne⟩, hxi⟩
+      · rfl
+      · exact absurd hxi hne
+    · rintro rfl; exact ⟨Or.inl rfl, hid⟩
+  · intro x hx
+    rw [mem_putEnt_replace hpre hid]
+    constructor
+    · intro h; exact Or.inr ⟨h, hx⟩
+    · rintro (rfl | ⟨h, _⟩)
+      · exact absurd hid hx
+      · exact h
+
+/-- every prefix of a modify batch leaves a well-formed entry list: `pre` is the stored entry, `post`
+keeps its id, and the entry list after this pair respects the uniqueness the upper layers guarantee -/
+def BatchOK : List SEnt → List (SEnt × SEnt) → Prop
+  | _, [] => True
+  | ents, (pre, post) :: ps =>
+    pre ∈ ents ∧ post.id = pre.id ∧ KeysNodup pre ∧ KeysNodup post ∧
+      NUniq (putEnt ents post) ∧ BatchOK (putEnt ents post) ps
+
+theorem indexPairs_inv {stale : Nat → IType → Prop} {idxmeta : List (Nat × IType)} :
+    ∀ (ps : List (SEnt × SEnt)) (ents : List SEnt) (t t' : Tables), TInv stale idxmeta ents t → NUniq ents →
+      (ents.map (·.id)).Nodup → BatchOK ents ps → indexPairs idxmeta ps t = some t' →
+      TInv stale idxmeta (ps.foldl (fun acc p => putEnt acc p.2) ents) t' ∧
+        ((ps.foldl (fun acc p => putEnt acc p.2) ents).map (·.id)) = ents.map (·.id)
+  | [], ents, t, t', hinv, _, _, _, hrun => by
+    simp only [indexPairs, Option.some.injEq] at hrun
+    subst hrun
+    exact ⟨hinv, rfl⟩
+  | (pre, post) :: ps, ents, t, t', hinv, hu, hids, hok, hrun => by
+    obtain ⟨hpre, hid, hkp, hkq, hu1, hok'⟩ := hok
+    simp only [indexPairs] at hrun
+    cases h1 : entryIndex idxmeta (some pre) (some post) t with
+    | none => rw [h1] at hrun; exact absurd hrun (by simp)
+    | some t1 =>
+      rw [h1] at hrun
+      simp only at hrun
+      have hinv1 : TInv stale idxmeta (putEnt ents post) t1 :=
+        entryIndex_inv (change_replace hids hpre hid) hinv hu hu1
+          (by intro x hx; simp only [Option.some.injEq] at hx; subst hx; exact hkp)
+          (by intro x hx; simp only [Option.some.injEq] at hx; subst hx; exact hkq) h1
+      have hids1 : ((putEnt ents post).map (·.id)).Nodup := by rw [putEnt_ids hpre hid]; exact hids
+      obtain ⟨r1, r2⟩ := indexPairs_inv ps (putEnt ents post) t1 t' hinv1 hu1 hids1 hok' hrun
+      simp only [List.foldl_cons]
+      exact ⟨r1, r2.trans (putEnt_ids hpre hid)⟩
+
+theorem change_remove {ents : List SEnt} {e : SEnt} (hids : (ents.map (·.id)).Nodup) (he : e ∈ ents) :
+    Change ents (ents.filter (fun x => !decide (x.id = e.id))) e.id (some e) none := by
+  refine ⟨?_, ?_, ?_⟩
+  · intro x
+    simp only [Option.some.injEq]
+    constructor
+    · rintro ⟨hx, hxi⟩; exact (same_of_nodup_ids hids x hx e he hxi).symm
+    · rintro rfl; exact ⟨he, rfl⟩
+  · intro x; simp
+  · intro x hx; simp [hx]
+
+theorem filter_ids_nodup {ents : List SEnt} (p : SEnt → Bool) (hids : (ents.map (·.id)).Nodup) :
+    ((ents.filter p).map (·.id)).Nodup :=
+  List.Nodup.sublist (List.Sublist.map _ List.filter_sublist) hids
+
+/-- `tombstones.iter().try_for_each(|e| entry_index(Some(e), None))` -/
+theorem unindexAll_inv {stale : Nat → IType → Prop} {idxmeta : List (Nat × IType)} :
+    ∀ (dead ents : List SEnt) (t t' : Tables), TInv stale idxmeta ents t → NUniq ents →
+      (ents.map (·.id)).Nodup → (∀ e ∈ dead, e ∈ ents) → (∀ e ∈ dead, KeysNodup e) → (dead.map (·.id)).Nodup →
+      unindexAll idxmeta dead t = some t' →
+      TInv stale idxmeta (ents.filter (fun x => !(dead.map (·.id)).contains x.id)) t'
+  | [], ents, t, t', hinv, _, _, _, _, _, hrun => by
+    simp only [unindexAll, Option.some.injEq] at hrun
+    subst hrun
+    refine hinv.congr_ents ?_
+    intro x; simp
+  | e :: es, ents, t, t', hinv, hu, hids, hin, hk, hdn, hrun => by
+    simp only [unindexAll] at hrun
+    cases h1 : entryIndex idxmeta (some e) none t with
+    | none => rw [h1] at hrun; exact absurd hrun (by simp)
+    | some t1 =>
+      rw [h1] at hrun
+      simp only at hrun
+      let ents1 := ents.filter (fun x => !decide (x.id = e.id))
+      have hu1 : NUniq ents1 := hu.subset (fun x hx => (List.mem_filter.1 hx).1)
+      have hinv1 : TInv stale idxmeta ents1 t1 :=
+        entryIndex_inv (change_remove hids (hin e (by simp))) hinv hu hu1
+          (by intro x hx; simp only [Option.some.injEq] at hx; subst hx; exact hk e (by simp)) (by simp) h1
+      have hdn' := List.nodup_cons.1 (by simpa using hdn : (e.id :: es.map (·.id)).Nodup)
+      have hin1 : ∀ x ∈ es, x ∈ ents1 := by
+        intro x hx
+        refine List.mem_filter.2 ⟨hin x (by simp [hx]), ?_⟩
+        have : x.id ≠ e.id := fun h => hdn'.1 (h ▸ List.mem_map.2 ⟨x, hx, rfl⟩)
+        simp [this]
+      have := unindexAll_inv es ents1 t1 t' hinv1 hu1 (filter_ids_nodup _ hids) hin1
+        (fun x hx => hk x (by simp [hx])) hdn'.2 hrun
+      refine this.congr_ents ?_
+      intro x
+      simp only [ents1, List.mem_filter, List.map_cons, List.contains_cons, Bool.not_or, Bool.and_eq_true,
+        Bool.not_eq_true', beq_eq_false_iff_ne, ne_eq, decide_eq_false_iff_not, Bool.not_eq_eq_eq_not,
+        Bool.not_true]
+      constructor
+      · rintro ⟨⟨h1, h2⟩, h3⟩; exact ⟨h1, h2, h3⟩
+      · rintro ⟨h1, h2, h3⟩; exact ⟨⟨h1, h2⟩, h3⟩
+
 end Kanidm.Index
